@@ -465,39 +465,50 @@ wait
 
 
 RLD_STATE = {"path": None, "error": None, "done": False}
+IDX_STATE = {"path": None, "error": None, "done": False}
 
 
-def real_list_manager():
-    """translates /repo's glass-easel/src/tmpl/range_list_diff.ts to JavaScript (lib/tsstrip.py, type erasure), checks the
-    syntax with node and returns the path of the generated module, or None with RLD_STATE['error'] set.  Regenerated whenever
-    the source or the translator changes (content hash in the file name); never stored under /verif outside .cache."""
-    if RLD_STATE["done"]:
-        return RLD_STATE["path"]
-    RLD_STATE["done"] = True
+def _translate(state, rel, fn_name, prefix):
+    """translates a TypeScript file of /repo's runtime to JavaScript (lib/tsstrip.py, type erasure), checks the syntax with
+    node and returns the path of the generated module, or None with state['error'] set.  Regenerated whenever the source
+    or the translator changes (content hash in the file name); never stored under /verif outside .cache."""
+    if state["done"]:
+        return state["path"]
+    state["done"] = True
     import hashlib
     sys.path.insert(0, os.path.join(VERIF, "lib"))
     import tsstrip
-    srcp = os.path.join(REPO, "glass-easel", "src", "tmpl", "range_list_diff.ts")
+    srcp = os.path.join(REPO, *rel.split("/"))
     try:
         src = open(srcp, encoding="utf8").read()
         h = hashlib.sha256((src + open(os.path.join(VERIF, "lib", "tsstrip.py")).read()).encode("utf8")).hexdigest()[:16]
-        outp = os.path.join(CACHE, "rld_%s.js" % h)
+        outp = os.path.join(CACHE, "%s_%s.js" % (prefix, h))
         if not os.path.exists(outp):
-            js = tsstrip.strip(src)
+            js = getattr(tsstrip, fn_name)(src)
             tmp = outp[:-3] + ".tmp.js"
             open(tmp, "w", encoding="utf8").write(js)
             pr = subprocess.run(["node", "--check", tmp], capture_output=True)
             if pr.returncode != 0:
                 raise tsstrip.StripError("generated JavaScript does not parse: " + pr.stderr.decode("utf8", "replace")[:400])
             for f in os.listdir(CACHE):
-                if f.startswith("rld_") and f.endswith(".js") and not f.endswith(".tmp.js"):
+                if f.startswith(prefix + "_") and f.endswith(".js") and not f.endswith(".tmp.js"):
                     os.remove(os.path.join(CACHE, f))
             os.rename(tmp, outp)
-        RLD_STATE["path"] = outp
+        state["path"] = outp
     except Exception as e:  # the translator could not erase the types: callers report it (C06)
-        RLD_STATE["error"] = "%s: %s" % (type(e).__name__, e)
-        RLD_STATE["path"] = None
-    return RLD_STATE["path"]
+        state["error"] = "%s: %s" % (type(e).__name__, e)
+        state["path"] = None
+    return state["path"]
+
+
+def real_list_manager():
+    """glass-easel/src/tmpl/range_list_diff.ts (class RangeListManager)"""
+    return _translate(RLD_STATE, "glass-easel/src/tmpl/range_list_diff.ts", "strip", "rld")
+
+
+def real_template_instance():
+    """glass-easel/src/tmpl/index.ts (class GlassEaselTemplateInstance: updateValues builds the update path trees)"""
+    return _translate(IDX_STATE, "glass-easel/src/tmpl/index.ts", "strip_index", "idx")
 
 
 def node_jobs(jobs, timeout=3000, shards=8):
@@ -510,6 +521,9 @@ def node_jobs(jobs, timeout=3000, shards=8):
     rld = real_list_manager()
     if rld:
         env["GE_RLD_JS"] = rld
+    idx = real_template_instance()
+    if idx:
+        env["GE_IDX_JS"] = idx
     shards = max(1, min(shards, len(jobs)))
     chunks = [jobs[i::shards] for i in range(shards)]
     procs = []
